@@ -46,6 +46,7 @@ def check(chk, fx):
     from .. import primrules
     primrules.prims(chk, fx, "UTIL")
     primrules.prims(chk, fx, "GAPI2")
+    primrules.prims(chk, fx, "NAMEFILL")
     from .. import gramrules
     gramrules.check(chk, fx)          # the pattern grammar: which patterns parse at all
 
@@ -375,3 +376,10 @@ def _derefs(n, var_id):
     if s.get("k") == "UnaryOperator" and s.get("op") == "*":
         return A.declref_id(s["c"][0]) == var_id
     return False
+
+
+def pre(chk):
+    """Type-level facts about what the rule operators build (stored functor type, contextual flag, right-side items):
+    decided before the witness grammars are extracted."""
+    from .. import tlw
+    tlw.run(chk, "RULE-T", "w_ruletype.cpp")
